@@ -183,6 +183,11 @@ def apply_step(pool, step, cfg):
         f2 = f1.fuse_legs(axes=tuple(q if len(q) > 1 else q[0] for q in pos), mode="meta") if ax2 is not None else f1
         u = f2.unfuse_legs(axes=tuple(sel) if len(sel) > 1 else sel[0])
         return [f2, u]
+    if op == "svdvals":
+        _, i, k, sU = step
+        a = pool[i]
+        S = yastn.svd(a, axes=(tuple(range(k)), tuple(range(k, a.ndim))), sU=sU, compute_uv=False)
+        return [S, a.copy()]
     if op == "vdot":
         return [yastn.vdot(pool[step[1]], pool[step[2]])]
     if op == "norm":
@@ -332,10 +337,18 @@ def propose(pool, rng, fermionic, fuse_modes=(None, None, "hard", "meta")):
     kind = rng.choice(("transpose", "conj", "scale", "add", "tensordot", "tensordot", "tensordot", "trace", "fuse", "fuse",
                        "unfuse", "svd", "qr", "add_leg", "remove_leg", "vdot", "norm", "swap_gate", "ncon", "broadcast",
                        "mask", "lazy", "diag", "flip_charges", "to_dict", "zero_block", "remove_zero_blocks", "unit_legs",
-                       "addn_lazy", "add_mismatch", "mixed_partial"))
+                       "addn_lazy", "add_mismatch", "mixed_partial", "svdvals"))
+    if kind == "svdvals":
+        # values-only svd in the operand's natural axis order; the operand is read again afterwards
+        i = pick(lambda t: t.ndim >= 2 and not t.isdiag and t.size > 0 and not any(is_fused(l) for l in t.get_legs()))
+        if i is None:
+            return None
+        return ("svdvals", i, rng.randint(1, pool[i].ndim - 1), rng.choice((1, -1)))
     if kind == "mixed_partial":
         # plain tensor of rank 2..5 padded with unit legs to 5-6 native legs; groups fused hard / meta / left plain side by side;
         # ONE unfuse_legs call on a subset of the fused legs, then the rest
+        if "hard" not in fuse_modes:
+            return None           # only in programs that name fusion modes explicitly (not compared across default_fusion)
         i = pick(lambda t: 2 <= t.ndim <= 5 and not t.isdiag and not any(is_fused(l) for l in t.get_legs()))
         if i is None:
             return None
